@@ -262,3 +262,31 @@ Theorem transpose_swaps_samples_identity k m :
   (forall f is_fun opdt xdt, forward_dt f is_fun opdt (lmT2 k m) xdt = adjoint_dt f is_fun opdt m xdt) /\
   (forall f is_fun opdt xdt, adjoint_dt f is_fun opdt (lmT2 k m) xdt = forward_dt f is_fun opdt m xdt).
 Proof. repeat split. Qed.
+
+(* ---------- 2-d batches through a matrix: (A X) e = A (X e), so column j of the result is A applied to column j ---------- *)
+Lemma mmul_assoc c (A X : list (list Qc)) e : wf_mat c X -> length e = c ->
+  qmatvec (mmul c A X) e = qmatvec A (qmatvec X e).
+Proof.
+  intros WX He. unfold mmul. unfold qmatvec at 1 3, matvec. rewrite map_map. apply map_ext. intros arow.
+  change (qdot (qmattvec c X arow) e = qdot arow (qmatvec X e)).
+  rewrite (qdot_comm arow), (qc_adjoint c X e arow WX He). apply qdot_comm.
+Qed.
+
+Theorem matrix_batch_columnwise n (A : list (list Qc)) k c l :
+  wf_mat n A -> length l = (c * n)%nat ->
+  let X := chunks c n l in
+  forward (mat_model n A (GId n) (GId k)) (V2 n c l) = Some (V2 (length A) c (concat (mmul c A X))) /\
+  wf_mat c (mmul c A X) /\ length (mmul c A X) = length A /\
+  (forall e, length e = c -> qmatvec (mmul c A X) e = qmatvec A (qmatvec X e)) /\
+  (forall j, (j < c)%nat -> col 0 (mmul c A X) j = qmatvec A (col 0 X j)).
+Proof.
+  intros WA Hl X.
+  assert (WX : wf_mat c X) by (apply chunks_wf; exact Hl).
+  destruct (mmul_shape c A X WX) as [WM LM].
+  split; [|split; [exact WM|split; [exact LM|split]]].
+  - unfold forward, apply_func. cbn [mat_model lm_fwd lm_D lm_R p2f f2p obind mat_fwd].
+    rewrite (forallb_rows n A WA). reflexivity.
+  - intros e He. apply mmul_assoc; assumption.
+  - intros j Hj. rewrite <- (qmatvec_unit c (mmul c A X) j WM Hj), <- (qmatvec_unit c X j WX Hj).
+    apply mmul_assoc; [exact WX | apply qunit_length].
+Qed.
